@@ -98,7 +98,7 @@ def check_flag(ctx, rule, cls_name, run, res, flag_names, want_axes=("C",), extr
             t, why = first_clear_text(res, f)
             bad.append(f"not {FLAG_TEXT[f]}" + (f" — {why}" if why else ""))
             if t:
-                key = f"{cls_name}({run.label}): {t}"
+                key = f"{cls_name}: {t}"
                 loc = why.split(":")[0] + ":" + why.split(":")[1] if why.count(":") >= 2 else loc
     if bad:
         ctx.violated(rule, key, "; ".join(bad) + extra, loc, derivation={"returned": v.short(), "path": res.describe_path()})
